@@ -39,6 +39,7 @@ type script struct {
 	PaceUs  int  `json:"paceUs"`  // paced: trigger interval
 	Burst   int  `json:"burst"`   // extra unique lines per producer in the first phase (buffer overflow runs)
 	ShutMs  int  `json:"shutMs"`  // delay between the last log call and Shutdown
+	Shut2Ms int  `json:"shut2Ms"` // > 0: a second goroutine calls Shutdown too, this long after the first call
 	Pulses  int  `json:"pulses"`  // closing phase: single line, short pause, then more lines than the buffer holds (xN)
 }
 
@@ -216,8 +217,23 @@ func main() {
 		time.Sleep(time.Duration(sc.ShutMs) * time.Millisecond)
 	}
 	emit(map[string]any{"e": "shutcall"})
-	log.Shutdown()
-	emit(map[string]any{"e": "shutret"})
+	if sc.Shut2Ms > 0 {
+		// two callers (say a signal handler and the regular exit path): each returns only after everything is written
+		first := make(chan struct{})
+		go func() {
+			log.Shutdown()
+			emit(map[string]any{"e": "shutret"})
+			close(first)
+		}()
+		time.Sleep(time.Duration(sc.Shut2Ms) * time.Millisecond)
+		emit(map[string]any{"e": "shutcall"})
+		log.Shutdown()
+		emit(map[string]any{"e": "shutret"})
+		<-first
+	} else {
+		log.Shutdown()
+		emit(map[string]any{"e": "shutret"})
+	}
 	close(stopPacer)
 	tr.Close()
 	os.Exit(0)
